@@ -10,6 +10,7 @@ namespace Mc
 
 structure RoundInfo where
   outcome : String
+  detail : String
   depWrites : Nat
   /-- accepted writes to children (ControllerRevisions not counted) -/
   childWrites : Nat
@@ -21,7 +22,7 @@ structure RoundInfo where
   deriving Inhabited
 
 def RoundInfo.ofJ (j : J) : RoundInfo :=
-  { outcome := j.getStr "outcome", depWrites := (j.getInt "depWrites").toNat, childWrites := (j.getInt "childWrites").toNat,
+  { outcome := j.getStr "outcome", detail := j.getStr "detail", depWrites := (j.getInt "depWrites").toNat, childWrites := (j.getInt "childWrites").toNat,
     contentWrites := (j.getD "contentWrites").strList, storeDigest := j.getStr "storeDigest",
     updated := j.getStr "updated", revisions := (j.getInt "revisions").toNat,
     images := (j.getD "images").fields.map (fun kv => (kv.1, kv.2.strD "")) }
@@ -44,8 +45,26 @@ def oracleC01Rounds (c : J) : Option (Option String) :=
   let rs := (c.getArr "rounds").map RoundInfo.ofJ
   -- excluded by the statement: a foreign object occupies a desired child's name
   if c.getBool "foreign" then none else
+  -- not judged: a namespaced parent with a cluster-scoped child kind (Kubernetes does not allow a cluster-scoped
+  -- dependent to name a namespaced owner; metacontroller never lists such objects for a namespaced parent)
+  let cfg0 := c.getD "cfg"
+  if cfg0.getBool "parentNamespaced" && (cfg0.getArr "children").any (fun ch => !ch.getBool "namespaced") then none else
   let n := rs.length
+  let lastDetail := (rs.getLast?.map (·.detail)).getD ""
+  let has (t : String) : Bool := (lastDetail.splitOn t).length > 1
+  -- excluded because another property demands a standing error (DESIGN §3 "How the statements are read"):
+  -- customize rules that C15 wants rejected, an update method outside the documented set (C06), a desired child
+  -- whose labels do not satisfy the selector (C04), a type clash between desired and observed content (C05)
+  if has "related rule cannot have both" || has "differs from parent object namespace" || has "unknown method" ||
+     has "don't match parent selector" || has "expecting" then none else
   some (
+    -- recorded finding F-C01-1: without selector generation the ControllerRevision is labelled from
+    -- spec.template.metadata.labels; when those do not satisfy spec.selector the revision is released on the next sync
+    -- and re-creating it fails with AlreadyExists for ever
+    orElse (check (!(has "can't create ControllerRevision" && has "AlreadyExists"))
+      "[F-C01-1] the parent's ControllerRevision does not match the parent's own selector: it is released, and every later sync fails re-creating it (AlreadyExists)") fun _ =>
+    orElse (check (!(has "an empty namespace may not be set"))
+      "[F-C08-1] cluster-scoped parent with a rolling strategy: every sync fails writing the ControllerRevision (empty namespace)") fun _ =>
     orElse (check ((quietFrom rs).isSome && quietAt rs (n - 1) && quietAt rs (n - 2))
       s!"no quiescence within {n} syncs: child writes per round {rs.map (·.childWrites)}, outcomes {rs.map (·.outcome)}") fun _ =>
     -- once nothing changes, nothing changes again (no hot loop)
